@@ -45,19 +45,21 @@ class LineStage:
         done = {}
         reported = set()
         for m in mism:
-            # at most max_minimise reports per class of failing op (kind, first two tokens of the op)
+            # at most max_minimise minimised reports per class of failing op (kind, first three tokens of the op);
+            # every further mismatch is still reported, unminimised, so that a known finding can never hide a new one
             cls = (m.kind, " ".join(m.script.ops[m.index].split(" ")[:3]) if m.index < len(m.script.ops) else "")
             if done.get(cls, 0) >= self.max_minimise or len(reported) >= 16:
-                continue
-            done[cls] = done.get(cls, 0) + 1
-            mm = core.minimise(m, exe, lean_exe, self.normalize, oracle=self.oracle)
+                mm, minimised = m, False
+            else:
+                done[cls] = done.get(cls, 0) + 1
+                mm, minimised = core.minimise(m, exe, lean_exe, self.normalize, oracle=self.oracle), True
             key = (mm.kind, tuple(mm.script.ops))
             if key in reported:
                 continue
             reported.add(key)
             mism_out.append(dict(kind=mm.kind, impl_name=mm.impl_name, ops=mm.script.ops, failing_op_index=mm.index,
                                  impl_output=mm.impl[:2000], model_output=mm.model[:2000], spec_output=mm.spec[:2000],
-                                 impl_differs=(mm.impl != mm.model),
+                                 impl_differs=(mm.impl != mm.model), minimised=minimised,
                                  original_script_len=len(m.script.ops), total_mismatching_scripts=len(mism),
                                  replay_hint="feed `ops` to harness/rs (or harness/c) and to lean/.lake/build/bin/driver and compare line by line"))
         distinct = {sc.key() for sc in self.scripts if sc.nontrivial}
